@@ -413,3 +413,12 @@ def builders(ctx):
     ctx.check(any(('dstar', V('kwargs')) in e.kws for e in ups), R, 'sanitize_records.overrides', ctx.where(fa),
               found=[T.show(e.term) for e in ups], expected='options.update(**kwargs)',
               reason='is_one_based / tril_action given by the caller must override the preset')
+
+
+_run_core = run
+
+
+def run(ctx):
+    _run_core(ctx)
+    from . import refs_misc
+    refs_misc.run_for(ctx, 'C05')
